@@ -13,13 +13,13 @@ from vmon.wsgi import make_environ, call_app
 RULE = ('values: text over ASCII / Latin-1 / BMP / astral planes with CR, LF, NUL (and other control characters as decoys) at start, '
         'middle, end, doubled, alone; int, float (inf, nan), bool, None, bytes, list, tuple, object, str/int subclasses with a hostile '
         '__str__; x entry points: item assignment, append, setdefault, content_type / content_length / expires attributes, constructor '
-        'headers= (dict and pair list), **more_headers, HTTPResponse(...), HTTPError(..., **options), raised/returned through '
+        'headers= (dict, pair list, and other iterables: dict view, generator, zip, iterator), **more_headers, HTTPResponse(...), HTTPError(..., **options), raised/returned through '
         'Ombott.__call__, Response.copy(); x response classes Response / HTTPResponse / HTTPError; x every status in '
         'http.client.responses for the blacklist. Non-trivial = the value contains a control character or a non-ASCII character or is '
         'not a str; distinct = distinct (entry point, class, repr(value)).')
 REQUIRED = ['multi_valued_blacklist_checked', 'third_or_later_value_of_a_header', 'ctl_rejected', 'clean_accepted_and_roundtripped', 'non_ascii_roundtripped', 'multi_value_order_checked', 'blacklist_204',
             'blacklist_304', 'statuses_checked', 'wsgi_emissions', 'entry_setitem', 'entry_append', 'entry_setdefault', 'entry_attr',
-            'entry_ctor_dict', 'entry_ctor_pairs', 'entry_more_headers', 'entry_httperror_options', 'non_str_types']
+            'entry_ctor_dict', 'entry_ctor_pairs', 'entry_ctor_iterable', 'response_inspected_after_a_rejection', 'entry_more_headers', 'entry_httperror_options', 'non_str_types']
 ASSUMPTIONS = ['header names are ASCII tokens (the statement speaks of values)',
                'lone surrogates are not text and are left out; list values given to setdefault/update are not single-value setters',
                'the blacklist is checked for the canonical spellings the framework itself uses (HeaderDict is case-sensitive by design)']
@@ -87,33 +87,58 @@ def make_entry(rng, ombott):
             return cls()
         return cls(500, 'b') if cls is HTTPError else cls('b')
 
-    entry = rng.choice(['setitem', 'append', 'setdefault', 'attr', 'ctor_dict', 'ctor_pairs', 'more_headers', 'httperror_options', 'copy'])
+    entry = rng.choice(['setitem', 'append', 'setdefault', 'attr', 'ctor_dict', 'ctor_pairs', 'ctor_iterable', 'more_headers', 'httperror_options', 'copy'])
     pre = rng.randint(0, 4)      # how many clean values the same header already holds (append / pair list)
+    box = {'new': new}           # the response object the setter was applied to: inspected also after a rejection
 
     if entry == 'setitem':
         def f(n, v):
-            r = new()
+            r = box['r'] = new()
+            box['name'], box['kept'] = n, []
             r.headers[n] = v
             return r, n
     elif entry == 'append':
         def f(n, v):
-            r = new()
+            r = box['r'] = new()
             for k in range(pre):
                 r.headers.append(n, 'v%d' % k)
+            box['name'], box['kept'] = n, ['v%d' % k for k in range(pre)]
             r.headers.append(n, v)
             return r, n
     elif entry == 'setdefault':
         def f(n, v):
-            r = new()
+            r = box['r'] = new()
+            box['name'], box['kept'] = n, []
             r.headers.setdefault(n, v)
             return r, n
     elif entry == 'attr':
         attr = rng.choice(['content_type', 'content_length', 'expires'])
 
         def f(n, v, attr=attr):
-            r = new()
+            r = box['r'] = new()
+            real = {'content_type': 'Content-Type', 'content_length': 'Content-Length', 'expires': 'Expires'}[attr]
+            box['name'], box['kept'] = real, None       # None: whatever a fresh response emits for that header
             setattr(r, attr, v)
-            return r, {'content_type': 'Content-Type', 'content_length': 'Content-Length', 'expires': 'Expires'}[attr]
+            return r, real
+    elif entry == 'ctor_iterable':
+        shape = rng.choice(['dict_items', 'generator', 'zip', 'iterator', 'tuple_of_lists'])
+
+        def f(n, v, shape=shape):
+            pairs = [(n, 'v%d' % k) for k in range(pre)] + [(n, v)]
+            if shape == 'dict_items':
+                f.pre = 0
+                h = {n: v}.items()
+            elif shape == 'generator':
+                h = ((a, b) for a, b in pairs)
+            elif shape == 'zip':
+                h = zip([a for a, _ in pairs], [b for _, b in pairs])
+            elif shape == 'iterator':
+                h = iter(pairs)
+            else:
+                h = tuple([a, b] for a, b in pairs)
+            if cls is HTTPError:
+                return HTTPError(500, 'b', headers=h), n
+            return cls('b', 200, h), n
     elif entry == 'ctor_dict':
         def f(n, v):
             if cls is HTTPError:
@@ -143,10 +168,11 @@ def make_entry(rng, ombott):
                 r.headers.append(n, 'v%d' % k)
             r.headers.append(n, v)
             return r.copy(cls if cls is not Response else None), n
-    if entry in ('ctor_dict', 'ctor_pairs', 'more_headers') and cls in (BaseResponse, Response):
+    if entry in ('ctor_dict', 'ctor_pairs', 'ctor_iterable', 'more_headers') and cls in (BaseResponse, Response):
         cls = rng.choice([HTTPResponse, HTTPError])
         cname = cls.__name__
     f.pre = pre
+    f.box = box
     return entry, cname, f
 
 
@@ -210,6 +236,23 @@ def setter_unit(ctx, unit):
                     ctx.count('third_or_later_value_of_a_header')
             elif allowed_type and not (entry == 'attr'):
                 ctx.count('clean_value_rejected(not a verdict)')
+            # a refused value must not stay behind: an application that catches the error still sends this response
+            r0 = f.box.get('r')
+            if r0 is not None:
+                ctx.count('response_inspected_after_a_rejection')
+                try:
+                    hl0 = r0.headerlist
+                except Exception as e:  # noqa
+                    ctx.violation(f'headerlist-raises-after-a-rejected-value:{entry}', f'{where}: setter raised {exc!r}, then headerlist raises {e!r}', wit)
+                    continue
+                check_emitted_list(ctx, hl0, where + ' (after the setter refused the value)', wit)
+                left = emitted_for(hl0, f.box['name'])
+                r1 = f.box['new']()          # the same response without the refused call
+                for kv in f.box['kept'] or []:
+                    r1.headers.append(f.box['name'], kv)
+                kept = emitted_for(r1.headerlist, f.box['name'])
+                if left != kept:
+                    ctx.violation(f'rejected-value-stays-in-the-response:{entry}', f'{where}: setter raised {type(exc).__name__}, yet the header list has {left!r} (expected {kept!r})', wit)
             continue
         try:
             hl = resp.headerlist
@@ -230,7 +273,7 @@ def setter_unit(ctx, unit):
             continue    # formatted as a date
         em = emitted_for(hl, real_name)
         exp = [sv]
-        if entry in ('append', 'ctor_pairs', 'copy'):
+        if entry in ('append', 'ctor_pairs', 'ctor_iterable', 'copy'):
             exp = ['v%d' % k for k in range(f.pre)] + [sv]
             ctx.count('multi_value_order_checked')
             if f.pre >= 2:
